@@ -234,3 +234,52 @@ Theorem failed_tx_after_auth_staking : forall p s signer n fee g1 g2 b,
   snd (Ledger.Ops.exec_tx p s signer n fee g1 g2 b) = Ledger.TxAtomic.post_auth p s signer n fee.
 Proof. exact Ledger.TxAtomic.failed_tx_after_auth_l. Qed.
 Print Assumptions failed_tx_after_auth_staking.
+
+(* ---------- staking addEscrow / reclaimEscrow / allow / withdraw and the vault handlers
+   create / authorizeAction / cancelAction, ported step by step (Atomic/Handlers.v, Section
+   Ports2; keys, checks and computed records are universally quantified; the withdraw hook and
+   the vault action execution are ARBITRARY programs) ---------- *)
+Theorem failed_tx_effect_staking_vault :
+  forall (key : N -> tx -> N) (chk : N -> list (option val) -> tx -> bool) (calc : N -> list (option val) -> tx -> option val)
+         (newv : N -> list (option val) -> tx -> val) (gcost : option val -> N) (withdraw_hook execute_action : tx -> prog)
+         (P : params) (dec : option tx) (size : N) (s : mstate) (e : N) (g : gasacc) (s' : mstate),
+  deliver P (staking_vault_exec key chk calc newv gcost withdraw_hook execute_action) dec size s = (Err e, g, s') ->
+  s' = s \/ (exists x : tx, dec = Some x /\ s' = post_auth_state s x).
+Proof. exact Handlers.failed_tx_effect_staking_vault. Qed.
+Print Assumptions failed_tx_effect_staking_vault.
+
+(* withdraw with the hook published BEFORE the layer is opened (the seeded change C08-4) is not
+   atomic: the hook's write stays when the transfer fails *)
+Theorem withdraw_hook_before_layer_refuted : ~ atomic (hrun c08_4_handler false).
+Proof. exact c08_4_not_atomic. Qed.
+Print Assumptions withdraw_hook_before_layer_refuted.
+
+Theorem gen_staking_vault_step_order :
+  add_escrow_events = [8; 1; 8; 8; 8; 8; 8; 8; 8; 8; 8; 8; 4; 8; 4; 8; 4; 8] /\
+  reclaim_escrow_events = [8; 8; 1; 8; 8; 8; 8; 8; 8; 8; 8; 8; 8; 8; 8; 4; 8; 4; 8; 4; 8; 4; 8] /\
+  allow_events = [8; 1; 8; 8; 8; 8; 8; 8; 8; 8; 8; 8; 4; 8] /\
+  withdraw_events = [8; 1; 8; 8; 8; 8; 8; 2; 8; 6; 8; 8; 8; 8; 8; 8; 8; 4; 8; 4; 8; 3] /\
+  vault_create_events = [7; 8; 8; 1; 8; 2; 7; 8; 4; 8; 3] /\
+  vault_authorize_events = [7; 8; 8; 8; 8; 8; 1; 8; 2; 8; 8; 4; 8; 3; 8; 4; 8; 4; 8; 3] /\
+  vault_cancel_events = [8; 7; 8; 8; 8; 8; 1; 8; 2; 8; 8; 4; 8; 4; 8; 3].
+Proof. exact gen_staking_vault_step_order_l. Qed.
+Print Assumptions gen_staking_vault_step_order.
+
+Theorem gen_withdraw_layer_before_hook :
+  no_write_before_open withdraw_events = true /\
+  forallb (no_gas_after_write_from false)
+    [add_escrow_events; reclaim_escrow_events; allow_events; withdraw_events; vault_create_events; vault_authorize_events; vault_cancel_events] = true /\
+  forallb (fun l => (last l 0 =? COMMIT) && no_write_before_open l)
+    [withdraw_events; vault_create_events; vault_authorize_events; vault_cancel_events] = true.
+Proof. exact gen_withdraw_layer_before_hook_l. Qed.
+Print Assumptions gen_withdraw_layer_before_hook.
+
+(* every transaction method of every app (read from the ExecuteTx switches) is either ported
+   with a failed_tx_effect theorem or listed as covered by the twin-replica stream only; a new
+   method in neither list breaks this obligation *)
+Theorem gen_every_method_covered :
+  forallb method_covered all_tx_methods = true /\
+  forallb (fun p => existsb (pair_eqb p) all_tx_methods) ported_methods = true /\
+  List.length all_tx_methods = 30%nat.
+Proof. exact gen_every_method_covered_l. Qed.
+Print Assumptions gen_every_method_covered.
